@@ -82,6 +82,7 @@ from pynguin.testcase.execution import (
 )
 from pynguin.utils import randomness
 from pynguin.utils.exceptions import ConfigurationException
+from pynguin.utils import verif_hooks
 from pynguin.utils.report import (
     get_coverage_report,
     render_coverage_report,
@@ -377,12 +378,14 @@ def _setup_and_check() -> tuple[TestCaseExecutor, ModuleTestCluster, ConstantPro
     subject_properties = _setup_import_hook(dynamic_constant_provider)
     _patch_random()
     modules_before_sut = set(sys.modules.keys())
+    verif_hooks.phase("import")
     if not _load_sut(subject_properties):
         return None
     new_sut_module_names = set(sys.modules.keys()) - modules_before_sut
     if not _setup_report_dir():
         return None
 
+    verif_hooks.phase("cluster")
     # Analyzing the SUT should not cause any coverage.
     with subject_properties.instrumentation_tracer.temporarily_disable():
         if (test_cluster := _setup_test_cluster()) is None:
@@ -678,7 +681,9 @@ def _run() -> ReturnCode:  # noqa: C901, PLR0915
         executor, test_cluster, constant_provider
     )
     _LOGGER.info("Start generating test cases")
+    verif_hooks.phase("search-start")
     generation_result = algorithm.generate_tests()
+    verif_hooks.phase("search-done")
     if algorithm.resources_left():
         _LOGGER.info("Algorithm stopped before using all resources.")
     else:
@@ -695,6 +700,7 @@ def _run() -> ReturnCode:  # noqa: C901, PLR0915
     _track_search_metrics(algorithm, generation_result, coverage_metrics)
 
     # Generate assertions FIRST
+    verif_hooks.phase("assertions")
     _generate_assertions(executor, generation_result, test_cluster)
 
     # Minimize assertions if configured (requires re-instrumentation for checked_instructions)
@@ -711,6 +717,7 @@ def _run() -> ReturnCode:  # noqa: C901, PLR0915
     # Statement minimization LAST (now assertion-aware)
     try:
         _LOGGER.info("Minimizing test cases")
+        verif_hooks.phase("minimize")
         _minimize(generation_result, algorithm)
     except Exception as ex:
         _LOGGER.exception("Minimization failed: %s", ex)
@@ -727,6 +734,7 @@ def _run() -> ReturnCode:  # noqa: C901, PLR0915
 
     executor.subject_properties.instrumentation_tracer.disable()
 
+    verif_hooks.phase("export")
     # Export the generated test suites
     if config.configuration.test_case_output.export_strategy == config.ExportStrategy.PY_TEST:
         try:
@@ -787,6 +795,7 @@ def _run() -> ReturnCode:  # noqa: C901, PLR0915
                 "Failed to create coverage report: %s. ",
                 e,
             )
+    verif_hooks.phase("done")
     _collect_miscellaneous_statistics(test_cluster)
     if not stat.write_statistics():
         _LOGGER.error("Failed to write statistics data")
